@@ -82,6 +82,13 @@ def mutations_of(lines, i):
                 out.append((code[:m.start()] + str(n + d) + code[m.end():] + rest, nm))
         for m in re.finditer(r'"([A-Za-z][A-Za-z0-9_]*)"', code):
             out.append((code[:m.start()] + '"' + m.group(1) + '_"' + code[m.end():] + rest, "string"))
+    rep(r": Some\(([^()]*)\),", ": None,", "some->none")
+    rep(r"\.rev\(\)", "", "drop-rev")
+    rep(r" < ", " > ", "lt->gt")
+    rep(r" > ", " < ", "gt->lt")
+    rep(r"(\S+) && (.+?)( \{| \)|$)", r"\1\3", "and->left")
+    rep(r"(\S+(?:\(\))?) \|\| (.+?)( \{| \)|$)", r"\1\3", "or->left")
+    rep(r"\.try_into\(\)\?", " as _", "try_into->as")
     rep(r"\btrue\b", "false", "true->false")
     rep(r"\bfalse\b", "true", "false->true")
     # delete a statement with an effect: a push / insert / extend, or an assignment to a field
